@@ -306,6 +306,25 @@ func (w *World) structGlobalStore(global, only string) []structResult {
 			}
 		}
 	}
+	// a map held in the global must not be updated outside `only` either
+	for k, f := range w.prog.funcs {
+		if f.Blocks == nil || k == only {
+			continue
+		}
+		for _, b := range f.Blocks {
+			for _, ins := range b.Instrs {
+				mu, ok := ins.(*ssa.MapUpdate)
+				if !ok {
+					continue
+				}
+				if ld, ok := mu.Map.(*ssa.UnOp); ok {
+					if gv, ok := ld.X.(*ssa.Global); ok && gv.Pkg != nil && shortPkg(gv.Pkg.Pkg)+"."+gv.Name() == global {
+						bad = append(bad, k+" updates the map held in "+global+" at "+w.prog.prog.Fset.Position(ins.Pos()).String())
+					}
+				}
+			}
+		}
+	}
 	sort.Strings(bad)
 	// the address of the global must not escape either (a store through a pointer would go unseen)
 	for k, f := range w.prog.funcs {
